@@ -39,7 +39,19 @@ ENTRIES = {
 for p in props:
     f = os.path.join(V, "notes", p["id"] + ".manifest.json")
     if os.path.exists(f):
-        ENTRIES[p["id"]] = json.load(open(f))
+        d = json.load(open(f))
+        # accept the alternative key names some builders used
+        lc = d.get("level_claimed")
+        if "text" not in d and lc:
+            d["text"] = lc.get("text") if isinstance(lc, dict) else str(lc)
+            if isinstance(lc, dict) and "category" in lc:
+                d.setdefault("category", lc["category"])
+        d.setdefault("category", "proof")
+        if "note" not in d and d.get("level_note"):
+            d["note"] = d["level_note"]
+        d.setdefault("technique", "Coq proof + correspondence")
+        if d.get("text") and d.get("note"):
+            ENTRIES[p["id"]] = d
 
 hooks = ["27c1233"]
 m = {"version": 1,
